@@ -21,7 +21,17 @@ for d in "$@"; do
     seeded=$(go test -vet=off -count=1 -timeout 300s -run "$run" ./$demodir/ 2>&1 | tail -1)
     rm $demodir/zz_seed_demo_test.go
     tests=""
-    for p in $pkgdirs; do tests="$tests $(go test -vet=off -count=1 -timeout 600s ./$p/ 2>&1 | tail -1 | cut -c1-80);"; done
+    for p in $pkgdirs; do
+      out=$(go test -vet=off -count=1 -timeout 600s ./$p/ 2>&1)
+      res=$(echo "$out" | tail -1 | cut -c1-80)
+      if echo "$res" | grep -q FAIL; then
+        # tests that fail on the unchanged tree as well (sandbox: loopback dial refused) do not count
+        failing=$(echo "$out" | grep -E '^--- FAIL' | awk '{print $3}' | sort -u | tr '\n' ' ')
+        base=$(cd /repo && go test -vet=off -count=1 -timeout 600s ./$p/ 2>&1 | grep -E '^--- FAIL' | awk '{print $3}' | sort -u | tr '\n' ' ')
+        if [ "$failing" = "$base" ]; then res="ok (same tests fail on the unchanged tree: $base)"; else res="FAIL [$failing] vs unchanged [$base]"; fi
+      fi
+      tests="$tests $res;"
+    done
     echo "$name: demo(clean)=[$clean] demo(seeded)=[$seeded] build=[${build:-ok}] existing-tests=[$tests]"
     python3 - "$d" "$clean" "$seeded" "${build:-ok}" "$tests" "$run" "$demodir" <<'PY'
 import json,sys
